@@ -148,12 +148,13 @@ def restore():
         SelFromPlot.plot_svPSD = _ORIG["pv"]
 
 
-def drive(algo, plot, script, enum=False):
-    """Construct the real SelFromPlot on `algo`, play `script`; returns (recorded snapshots, exception kinds, .result)."""
+def drive(algo, plot, script, enum=False, freqlim=None):
+    """Construct the real SelFromPlot on `algo` (with the display option freqlim), play `script`; returns (recorded
+    snapshots, exception kinds, .result)."""
     from pyoma2.support.sel_from_plot import SelFromPlot
 
     _SESSION.update(script=script, rec=None, exc=None, obj=None, enum=enum)
-    obj = SelFromPlot(algo, freqlim=None, plot=plot)
+    obj = SelFromPlot(algo, freqlim=None if freqlim is None else tuple(freqlim), plot=plot)
     return _SESSION["rec"], _SESSION["exc"], getattr(obj, "result", "missing")
 
 
@@ -165,7 +166,7 @@ def as_table(tab, shape=None):
     return A
 
 
-def fake_algo(variant, tab, shape=None):
+def fake_algo(variant, tab, shape=None, ordlim=None):
     if variant == "FDD":
         freq = np.array(tab, dtype=float)
         n = len(freq)
@@ -175,7 +176,8 @@ def fake_algo(variant, tab, shape=None):
                                      run_params=types.SimpleNamespace())
     Fn = as_table(tab, shape)
     return types.SimpleNamespace(fs=100.0, result=types.SimpleNamespace(Fn_poles=Fn, Lab=np.where(np.isnan(Fn), 0, 1)),
-                                 run_params=types.SimpleNamespace(ordmin=0, ordmax=max(Fn.shape[1] - 1, 0), step=1))
+                                 run_params=types.SimpleNamespace(ordmin=0 if ordlim is None else int(ordlim[0]),
+                                                                  ordmax=max(Fn.shape[1] - 1, 0) if ordlim is None else int(ordlim[1]), step=1))
 
 
 # =====================================================================================================================
@@ -344,14 +346,23 @@ def coq_action(a):
 class Store:
     """Distinct transitions recorded on one table (the checker is a function of the transition, so each is evaluated once)."""
 
-    def __init__(self, ctx, variant, tab, tag, shape=None):
+    def __init__(self, ctx, variant, tab, tag, shape=None, freqlim=None, ordlim=None):
+        """freqlim / ordlim: DISPLAY options of the dialog (plotted frequency band; run_params.ordmin/ordmax = plotted order
+        range).  The property does not mention them: the pick is the pole / line nearest to the click whatever is displayed."""
         self.ctx, self.variant, self.tag = ctx, variant, tag
+        self.freqlim = None if freqlim is None else [float(freqlim[0]), float(freqlim[1])]
+        self.ordlim = None if ordlim is None else [int(ordlim[0]), int(ordlim[1])]
         self.T = Tab(variant, tab, shape)
         self.trans = {}  # (st, a, st2) -> script that first produced it
         self.bad = set()
 
     def case(self, script, **kw):
-        return dict(variant=self.variant, table=jsonable(self.T.raw), shape=self.T.shape, actions=[list(a) for a in script], gen=self.tag, **kw)
+        d = dict(variant=self.variant, table=jsonable(self.T.raw), shape=self.T.shape, actions=[list(a) for a in script], gen=self.tag, **kw)
+        if self.freqlim is not None:
+            d["freqlim"] = self.freqlim
+        if self.ordlim is not None:
+            d["ordlim"] = self.ordlim
+        return d
 
     def add_trace(self, script, rec, result):
         """Oracle on every step + registration for the Coq checker.  Returns the final state, or None if malformed."""
@@ -467,25 +478,26 @@ POPULATED = {
 POPULATED["pLSCF"] = POPULATED["SSI"]
 
 
-def enumerate_sequences(ctx, variant, tab, letters, maxlen, tag, maxlen_populated=None):
+def enumerate_sequences(ctx, variant, tab, letters, maxlen, tag, maxlen_populated=None, freqlim=None, ordlim=None):
     """ALL sequences over `letters` of length <= maxlen, from the fresh dialog and with the modifier already held; and all
     sequences of length <= maxlen_populated from each pre-populated selection of POPULATED."""
-    store = Store(ctx, variant, tab, tag)
-    algo = fake_algo("FDD" if variant == "FDD" else "SSI", tab)
+    store = Store(ctx, variant, tab, tag, freqlim=freqlim, ordlim=ordlim)
+    algo = fake_algo("FDD" if variant == "FDD" else "SSI", tab, ordlim=ordlim)
     n = 0
     mp = maxlen - 1 if maxlen_populated is None else maxlen_populated
     for prefix, ml in [((), maxlen), ((("kd",),), maxlen)] + [(pf, mp) for pf in POPULATED[variant]]:
         for L in range(ml + 1):
             for seq in itertools.product(letters, repeat=L):
                 script = prefix + seq
-                rec, exc, result = drive(algo, variant, script, enum=(n % 2 == 1))
+                rec, exc, result = drive(algo, variant, script, enum=(n % 2 == 1), freqlim=freqlim)
                 fin = store.add_trace(script, rec, result)
                 n += 1
                 ctx.count((variant, tag, script), nontrivial=any(len(s[1]) > 0 for s in rec))
                 if fin is None and len(ctx.failures) > 40:
                     return store
-    ctx.hist("enumerated sequences", "%s %s len<=%d x %d letters x {fresh, modifier held} + len<=%d x %d pre-populated selections: %d"
-             % (variant, tag, maxlen, len(letters), mp, len(POPULATED[variant]), n))
+    ctx.hist("enumerated sequences", "%s %s%s len<=%d x %d letters x {fresh, modifier held} + len<=%d x %d pre-populated selections: %d"
+             % (variant, tag, "" if freqlim is None and ordlim is None else " freqlim=%s ordlim=%s" % (freqlim, ordlim), maxlen, len(letters), mp,
+                len(POPULATED[variant]), n))
     return store
 
 
@@ -553,6 +565,65 @@ def structured_histories(rng, variant, picks, table):
         out.append(h)
     out.append(base + (("c", 3, float(picks[0][0]), 0.0), ("c", 2, float(picks[len(picks) // 2][0]), 0.0), pick(*picks[0])))
     out.append(base + (("co", 3), ("c", 2, float(picks[-1][0]) + 100.0, 0.0), ("c", 2, -50.0, 0.0)))
+    return out
+
+
+def _between(rng, a, b):
+    """a dyadic point strictly between a < b (1/4, 1/2 or 3/4 of the gap)"""
+    return a + (b - a) * rng.choice([0.25, 0.5, 0.75])
+
+
+def edge_base(rng, variant):
+    """A table / grid and DISPLAY limits whose edges fall strictly BETWEEN grid lines (pole frequencies / orders), with the
+    click abscissae just inside, exactly at and just outside each edge, and far outside.  Returns (table, freqlim, ordlim, xs, ys)."""
+    if variant == "FDD":
+        n = rng.randint(6, 12)
+        grid = [g / 4.0 for g in sorted(rng.sample(range(0, 120), n))]
+        vals, table, ordlim, ys = grid, grid, None, [0.0, -12.5, 3.0]
+    else:
+        nrow, ncol = rng.randint(3, 5), rng.randint(3, 6)
+        if nrow == ncol:
+            nrow += 1
+        A = np.array(rng.sample(range(2, 240), nrow * ncol), dtype=float).reshape(nrow, ncol) / 4.0
+        for r in range(nrow):
+            for c in range(ncol):
+                if rng.random() < 0.2:
+                    A[r, c] = NAN
+        for c in range(ncol):
+            if np.all(np.isnan(A[:, c])):
+                A[0, c] = 61.0 + c
+        vals, table = sorted(set(float(v) for v in A.flatten() if not np.isnan(v))), A
+        omin = rng.randint(1, max(1, ncol - 2))
+        omax = rng.randint(omin, ncol - 2) if ncol - 2 >= omin else omin
+        ordlim = (omin, omax)  # orders 0..omin-1 and omax+1..ncol-1 lie outside the plotted order range
+        ys = sorted(set([omin - 1.0, omin - 0.75, omin - 0.25, float(omin), omax + 0.25, omax + 0.75, omax + 1.0, float(ncol - 1), 0.0, -1.5, ncol + 1.5]))
+    i = rng.randrange(0, len(vals) // 2)
+    j = rng.randrange(len(vals) // 2, len(vals) - 1)
+    lo, hi = _between(rng, vals[i], vals[i + 1]), _between(rng, vals[j], vals[j + 1])
+    xs = []
+    for e, (a, b) in ((lo, (vals[i], vals[i + 1])), (hi, (vals[j], vals[j + 1]))):
+        d = (b - a) / 16.0
+        xs += [e - d, e, e + d, a + d, b - d, a, b]  # around the edge; next to / on the grid lines on either side of it
+    xs += [vals[0] - 3.0, vals[-1] + 3.0, vals[0], vals[-1]]
+    return table, (lo, hi), ordlim, xs, ys
+
+
+def edge_histories(rng, variant, xs, ys):
+    """modifier held; picks at every edge abscissa (several orders), deselect-nearest at edge abscissae, deselect-one."""
+    out = []
+    allx = list(xs)
+    rng.shuffle(allx)
+    for k in range(0, len(allx), 4):
+        part = allx[k : k + 4]
+        h = [("kd",)] + [("c", 1, float(x), float(rng.choice(ys))) for x in part]
+        h.append(("c", 2, float(rng.choice(xs)), float(rng.choice(ys))))
+        if rng.random() < 0.5:
+            h.append(("c", 1, float(rng.choice(xs)), float(rng.choice(ys))))
+            h.append(("c", 3, 0.0, 0.0) if rng.random() < 0.5 else ("c", 2, float(rng.choice(part)), 0.0))
+        out.append(tuple(h))
+    if variant != "FDD":  # one history sweeping the order axis at a fixed abscissa
+        x = rng.choice(xs)
+        out.append((("kd",),) + tuple(("c", 1, float(x), float(y)) for y in rng.sample(ys, min(5, len(ys)))))
     return out
 
 
@@ -657,6 +728,7 @@ def inject(alg, A):
         if hasattr(alg.result, nm):
             setattr(alg.result, nm, None)
     alg.run_params.ordmax = max(ncol - 1, 0)
+    alg.run_params.ordmin = 0
 
 
 def handover(ctx, store, setup, name, variant, script, rtol, hmeta, enum=False):
@@ -665,6 +737,10 @@ def handover(ctx, store, setup, name, variant, script, rtol, hmeta, enum=False):
     alg = setup[name]
     _SESSION.update(script=script, rec=None, exc=None, obj=None, enum=enum)
     kw = {} if rtol is None else dict(rtol=rtol)
+    if store.freqlim is not None:
+        kw["freqlim"] = tuple(store.freqlim)
+    if store.ordlim is not None:
+        alg.run_params.ordmin, alg.run_params.ordmax = store.ordlim
     try:
         setup.mpe_from_plot(name, **kw)
     except Exception as e:
@@ -828,10 +904,10 @@ def _run(ctx):
         variant = c["variant"]
         tab = _tab_from_json(c)
         script = tuple(tuple(a) for a in c["actions"])
-        st = Store(ctx, variant, tab, "corpus:" + fname, shape=c.get("shape"))
+        st = Store(ctx, variant, tab, "corpus:" + fname, shape=c.get("shape"), freqlim=c.get("freqlim"), ordlim=c.get("ordlim"))
         stores.append(st)
         ctx.count(dict(corpus=fname, s=script))
-        rec, exc, result = drive(fake_algo(variant, tab, c.get("shape")), variant, script)
+        rec, exc, result = drive(fake_algo(variant, tab, c.get("shape"), c.get("ordlim")), variant, script, freqlim=c.get("freqlim"))
         st.add_trace(script, rec, result)
         if variant in ("SSI", "pLSCF"):
             inject(algs[variant], as_table(tab, c.get("shape")))
@@ -849,6 +925,38 @@ def _run(ctx):
         mp = maxlen - 1 if (ctx.quick() or tag == "small") else maxlen
         stores.append(enumerate_sequences(ctx, variant, tab, letters, maxlen, tag, maxlen_populated=mp))
         ctx.sample(dict(variant=variant, table=jsonable(tab), alphabet=[list(a) for a in letters], maxlen=maxlen))
+    # the same enumerations in dialogs constructed with explicit display limits whose edges fall between grid lines / poles
+    # (0.75|1.5 and 3.0|3.75 for the FDD grid; 4|5 and 8.25|10 Hz, plotted orders 1..1 for the pole table): the alphabet's clicks
+    # at 0.875, 4.0 (FDD) and 4.5, 9.75, 11.5 Hz, orders 0 and 2 (SSI/pLSCF) then designate lines / poles OUTSIDE the plotted band
+    oplan = [("FDD", ENUM_FDD, alphabet("FDD", True), ctx.n(3, 4), "small", (1.0, 3.3125), None),
+             ("SSI", ENUM_SSI, alphabet("SSI", True), ctx.n(2, 3), "small", (4.25, 9.0), (1, 1)),
+             ("pLSCF", ENUM_SSI, alphabet("pLSCF", True), ctx.n(2, 3), "small", (4.25, 9.0), (1, 1))]
+    for variant, tab, letters, maxlen, tag, fl, ol in oplan:
+        stores.append(enumerate_sequences(ctx, variant, tab, letters, maxlen, tag, maxlen_populated=maxlen - 1, freqlim=fl, ordlim=ol))
+
+    # ---- 2a. display-limit stream: random tables / grids, dialogs constructed with explicit freqlim (and plotted order range) whose
+    #          edges fall between grid lines; clicks just inside, exactly at and just outside each edge, and far outside
+    nedge = 0
+    for variant in ("FDD", "SSI", "pLSCF"):
+        for t in range(ctx.n(20, 120)):
+            table, fl, ol, xs, ys = edge_base(rng, variant)
+            if variant == "FDD":
+                st = Store(ctx, "FDD", table, "display-limits", freqlim=fl)
+                algo = fake_algo("FDD", table)
+            else:
+                st = Store(ctx, variant, table, "display-limits", shape=table.shape, freqlim=fl, ordlim=ol)
+                inject(algs[variant], table)
+            stores.append(st)
+            for i, script in enumerate(edge_histories(rng, variant, xs, ys)):
+                if variant == "FDD":
+                    rec, exc, result = drive(algo, "FDD", script, enum=bool(i % 2), freqlim=fl)
+                    st.add_trace(script, rec, result)
+                else:
+                    handover(ctx, st, ss, variant, variant, script, rng.choice([None, 0.0]), hmeta, enum=bool(i % 2))
+                    rec = _SESSION["rec"] or []
+                ctx.count(dict(v=variant, limits=[fl, ol], table=jsonable(st.T.raw), s=script), nontrivial=any(len(x[1]) > 0 for x in rec))
+                nedge += 1
+    ctx.extra["display_limit_histories"] = nedge
 
     # ---- 2b. structured stream: selections of 3..6 entries whose orders repeat non-adjacently in frequency order (and equal
     #          frequencies at different orders), then every single deselect-nearest / deselect-one, then more picks
@@ -881,7 +989,11 @@ def _run(ctx):
         for t in range(ntab):
             malformed = rng.random() < 0.18
             A, kind = random_table(rng, malformed)
-            st = Store(ctx, variant, A, "random:%s" % kind, shape=A.shape)
+            fl = None
+            if rng.random() < 0.35:  # an arbitrary plotted band (dyadic edges, anywhere relative to the poles)
+                lo = dy(rng, -1, 40)
+                fl = (lo, lo + dy(rng, 1, 30))
+            st = Store(ctx, variant, A, "random:%s" % kind, shape=A.shape, freqlim=fl)
             stores.append(st)
             inject(algs[variant], A)
             ctx.hist("table shape (rows x orders)", "%dx%d" % A.shape)
@@ -909,13 +1021,18 @@ def _run(ctx):
         if grid and rng.random() < 0.15:
             grid.insert(rng.randrange(len(grid)), rng.choice(grid))  # a repeated / out-of-order line (malformed grid)
         grid = [g / 8.0 for g in grid]
-        st = Store(ctx, "FDD", grid, "random")
+        fl = None
+        if rng.random() < 0.35:
+            lo = dy(rng, -1, 15)
+            fl = (lo, lo + dy(rng, 1, 15))
+        st = Store(ctx, "FDD", grid, "random", freqlim=fl)
         stores.append(st)
         ctx.hist("FDD grid length", n)
+        ctx.hist("explicit freqlim", fl is not None)
         algo = fake_algo("FDD", grid)
         for s in range(ctx.n(6, 8)):
             script = random_script(rng, "FDD", np.array(grid))
-            rec, exc, result = drive(algo, "FDD", script, enum=bool(s % 2))
+            rec, exc, result = drive(algo, "FDD", script, enum=bool(s % 2), freqlim=fl)
             st.add_trace(script, rec, result)
             ctx.count(dict(v="FDD", table=grid, s=script), nontrivial=any(len(x[1]) > 0 for x in rec))
 
@@ -926,8 +1043,14 @@ def _run(ctx):
         alg = algs[nm]
         alg.result.Fn_poles = A
         alg.result.Xi_poles, alg.result.Phi_poles, alg.result.Lab, alg.run_params.ordmax = real_aux[nm]
-        st = Store(ctx, variant, A.tolist(), "real-run:%s" % nm)
-        stores.append(st)
+        alg.run_params.ordmin = 0
+        realv = sorted(set(float(v) for v in A.flatten() if not np.isnan(v)))
+        st0 = Store(ctx, variant, A.tolist(), "real-run:%s" % nm)
+        stores.append(st0)
+        st1 = st0
+        if len(realv) > 3:  # a second dialog with an explicit band cutting between real poles
+            st1 = Store(ctx, variant, A.tolist(), "real-run:%s" % nm, freqlim=(0.5 * (realv[0] + realv[1]), 0.5 * (realv[-2] + realv[-1])))
+            stores.append(st1)
         cells = [(r, o) for r in range(A.shape[0]) for o in range(A.shape[1]) if not np.isnan(A[r, o])]
         if not cells:
             ctx.note("real %s run produced no retained pole; real-table hand-over skipped" % nm)
@@ -948,6 +1071,7 @@ def _run(ctx):
                 script.append(("ku",))
                 script.append(("c", 1, float(A[picks[-1]]), float(picks[-1][1])))
             script = tuple(script)
+            st = st1 if s % 2 == 0 else st0
             if near_tie(st.T, script):
                 ctx.not_judged += 1
                 continue
@@ -981,10 +1105,18 @@ def _run(ctx):
         for nm in ("FDD", "EFDD"):
             alg = algs[nm]
             freq = np.asarray(alg.result.freq, dtype=float)
-            st = Store(ctx, "FDD", freq.tolist(), "real-run:%s" % nm)
-            stores.append(st)
-            for s in range(ctx.n(3, 12)):
+            df = float(freq[1] - freq[0])
+            for s in range(ctx.n(4, 12)):
                 targets = [1.5, 6.8, 4.2] if s % 2 == 0 else [6.8, 1.5]
+                fl = None
+                if s % 2 == 1 or s == 0:
+                    # explicit band with both edges between two real grid lines (3/4 of the way to the next line); the clicks
+                    # just inside the edges designate the line just OUTSIDE the band (e.g. freqlim=(1, 7.56), click 7.557 -> 7.578)
+                    k1, k2 = int(round(1.0 / df)) + (s // 2), int(round(7.5 / df)) - (s // 2)
+                    fl = (float(freq[k1]) + 0.25 * df, float(freq[k2]) + 0.75 * df)
+                    targets = targets + [fl[1] - 0.03 * df, fl[0] + 0.03 * df]
+                st = Store(ctx, "FDD", freq.tolist(), "real-run:%s" % nm, freqlim=fl)
+                stores.append(st)
                 script = [("kd",)] + [("c", 1, f + rng.choice([0.0, 0.01, -0.02]), float(rng.randint(-40, 5))) for f in targets]
                 if s % 3 == 1:
                     script.append(("c", 2, targets[0] + 0.05, 0.0))
@@ -998,7 +1130,7 @@ def _run(ctx):
                 seen.clear()
                 err = None
                 try:
-                    ss.mpe_from_plot(nm)
+                    ss.mpe_from_plot(nm, **({} if fl is None else dict(freqlim=fl)))
                 except Exception as e:  # the extraction itself (peak fitting) is not the subject here
                     err = type(e).__name__
                 finally:
